@@ -30,6 +30,10 @@ func init() {
 		Rule: "byte strings for Graph6Decode and Sparse6Decode: ALL strings of length <= 2 over the 256 byte values (bare, behind ':' and behind the >>...<< headers), all strings of length 3..4 (5 in thorough) over a 14-byte hostile alphabet, " +
 			"every reference encoding of a base set of graphs truncated at every length, with every byte replaced by each of 11 boundary bytes, with every data bit flipped, with trailing garbage, and given to the other decoder; " +
 			"sparse6 pair streams synthesised by the harness (all 12-bit streams for n<=17, seeded pair lists with x >= n, v running past n, every fill of the last byte); 1-, 4- and 8-byte size headers with small, inconsistent and truncated n. " +
+			"Counter limits (grammar-aware, limits.go): for declared n = 0 (vertex numbers of 64, 32, 0 and neighbouring widths, since bits(n-1) is not defined there), n = 1, 2 and both sides of every change of k up to the largest accepted n = 4096, each in its 1-, 4- and 8-byte header form: " +
+			"ALL sequences of <= 3 (4 for n = 0 / width 64 and in thorough; 2 resp. 1 for n >= 32 in quick) pairs (b, x) with x in {0, 1, n-1, n, 0111.., 1000.., 111..0, 111..1}; seeded walks that jump just below n, 2^k, 2^7, 2^8, 2^15, 2^16, 2^31, 2^32, 2^63, 2^64 and carry the current vertex across with set increment bits; " +
+			"runs of 260..65540 set increment bits and one data byte repeated up to 11000 times (2^20 thorough); graph6: every header form of n in {0..5, 12, 62, 63, 64} x every body length 0..needed+2 x all-ones / all-zeros data. " +
+			"The harness follows v by the rule of formats.txt in unbounded arithmetic only to count which limits a string reaches (limits:* counters). " +
 			"The harness parses the size header itself: strings declaring n > 4096 are skipped. Outcome panic / CPU budget => violation; graph => N()=declared n, well formed (rg.WellFormed), decode(encode(graph)) == graph; " +
 			"a graph for a string without a readable size is a violation (except the documented empty graph6 string). " +
 			"non-trivial = string of length >= 2 that is not the canonical encoding of a graph; distinct = hash of (decoder, string)",
@@ -47,6 +51,15 @@ func init() {
 			"Sparse6Decode:accepted_without_stream",
 			"declared_n:unreadable", "declared_n:0", "declared_n:1", "declared_n:63..4096", "declared_n:>4096(skipped)",
 			"size_header_bytes=4", "size_header_bytes=8", "reencode_cycles",
+			// part 7: the counters of the decoders at their numeric limits
+			"limits:vertex_number_width=64", "limits:vertex_number_width=32", "limits:vertex_number_width=0", "limits:vertex_number_width=12",
+			"limits:declared_n=0:size_header_bytes=1", "limits:declared_n=0:size_header_bytes=4", "limits:declared_n=0:size_header_bytes=8",
+			"limits:declared_n=1:size_header_bytes=4", "limits:declared_n=1:size_header_bytes=8", "limits:declared_n=2:size_header_bytes=4", "limits:declared_n=2:size_header_bytes=8",
+			"limits:declared_n=largest_accepted:size_header_bytes=4", "limits:declared_n=largest_accepted:size_header_bytes=8",
+			"limits:current_vertex_incremented_across_n", "limits:current_vertex_incremented_across_2^k", "limits:current_vertex_incremented_across_2^8", "limits:current_vertex_incremented_across_2^16",
+			"limits:current_vertex_incremented_across_2^31", "limits:current_vertex_incremented_across_2^32", "limits:current_vertex_incremented_across_2^63", "limits:current_vertex_incremented_across_2^64",
+			"limits:current_vertex_set_to>=2^63_by_a_vertex_number", "limits:pairs_read_while_current_vertex>=2^63", "limits:pairs_read_while_current_vertex>=2^64",
+			"limits:one_data_byte_repeated", "limits:graph6:declared_n=0:size_header_bytes=4", "limits:graph6:declared_n=0:size_header_bytes=8", "limits:graph6:all_ones_data_accepted",
 		},
 	})
 }
@@ -210,7 +223,18 @@ func sameAdj(a, b *adjacency) string {
 }
 
 // judge gives s to the decoder and judges the outcome.
-func (m *mon) judge(dec, s, origin string) {
+func (m *mon) judge(dec, s, origin string) { m.judgeOutcome(dec, s, origin) }
+
+// The outcomes judgeOutcome reports to the workload (for observation counters only).
+const (
+	outSkipped = "skipped"
+	outPanic   = "panic"
+	outError   = "error"
+	outGraph   = "graph"
+)
+
+// judgeOutcome is judge; it also tells the caller what the decoder did.
+func (m *mon) judgeOutcome(dec, s, origin string) (outcome string) {
 	c := m.c
 	n, hdrLen, ok, emptyBody := declared(dec, s)
 	switch {
@@ -218,7 +242,7 @@ func (m *mon) judge(dec, s, origin string) {
 		c.Obs("declared_n:unreadable", 1)
 	case n > MaxN:
 		c.Obs("declared_n:>4096(skipped)", 1)
-		return
+		return outSkipped
 	case n == 0:
 		c.Obs("declared_n:0", 1)
 	case n == 1:
@@ -253,16 +277,16 @@ func (m *mon) judge(dec, s, origin string) {
 	if pi != nil {
 		c.Obs(dec+":outcome=panic", 1)
 		m.viol(dec, "panic|"+engine.SiteNoLine(pi.Site), sk, detail(s, origin), pi.String(), "an error or a graph")
-		return
+		return outPanic
 	}
 	if err != nil {
 		c.Obs(dec+":outcome=error", 1)
-		return
+		return outError
 	}
 	c.Obs(dec+":outcome=graph", 1)
 	if isNil {
 		m.viol(dec, "nil-graph-without-error", sk, detail(s, origin), "nil graph, nil error", "an error or a graph")
-		return
+		return outGraph
 	}
 	// the result: declared size, well formed
 	var gotN int
@@ -281,7 +305,7 @@ func (m *mon) judge(dec, s, origin string) {
 	})
 	if pi != nil {
 		m.viol(dec, "result-panics|"+engine.SiteNoLine(pi.Site), sk, detail(s, origin), pi.String(), "a well-formed graph")
-		return
+		return outGraph
 	}
 	if !ok {
 		if dec == g6 && emptyBody {
@@ -289,18 +313,18 @@ func (m *mon) judge(dec, s, origin string) {
 			if gotN != 0 {
 				m.viol(dec, "wrong-size", sk, detail(s, origin), fmt.Sprintf("N()=%d", gotN), "the empty graph (documented for the empty string)")
 			}
-			return
+			return outGraph
 		}
 		m.viol(dec, "graph-without-readable-size", sk, detail(s, origin), fmt.Sprintf("a graph on %d vertices and no error", gotN), "an error: the string has no complete size header N(n)")
-		return
+		return outGraph
 	}
 	if uint64(gotN) != n {
 		m.viol(dec, "wrong-size", sk, detail(s, origin), fmt.Sprintf("N()=%d", gotN), fmt.Sprintf("N()=%d (declared by the size header)", n))
-		return
+		return outGraph
 	}
 	if bad != "" {
 		m.viol(dec, "malformed-graph", sk, detail(s, origin), bad, "a well-formed graph")
-		return
+		return outGraph
 	}
 	// what the tolerant reference reads (recorded, not judged)
 	if dec == s6 {
@@ -344,7 +368,7 @@ func (m *mon) judge(dec, s, origin string) {
 	})
 	if pi != nil {
 		m.viol(dec, "result-cannot-be-encoded|"+engine.SiteNoLine(pi.Site), sk, detail(s, origin), pi.String(), "the decoded graph can be encoded again")
-		return
+		return outGraph
 	}
 	pi = c.Call(dec+"|"+sk+"|again|"+strKey(s2), func() {
 		if dec == g6 {
@@ -361,11 +385,11 @@ func (m *mon) judge(dec, s, origin string) {
 	d["reencoded_as"] = clip(s2)
 	if pi != nil {
 		m.viol(dec, "reencoded-result-panics|"+engine.SiteNoLine(pi.Site), sk, d, "decoding "+clip(s2)+": "+pi.String(), "decode(encode(graph)) == graph")
-		return
+		return outGraph
 	}
 	if err2 != nil {
 		m.viol(dec, "reencoded-result-rejected", sk, d, "decoding "+clip(s2)+": error "+err2.Error(), "decode(encode(graph)) == graph")
-		return
+		return outGraph
 	}
 	var diff string
 	pi = c.Call(dec+"|"+sk+"|compare", func() {
@@ -383,6 +407,7 @@ func (m *mon) judge(dec, s, origin string) {
 	} else if diff != "" {
 		m.viol(dec, "reencode-cycle-changes-graph", sk, d, diff+" (re-encoded as "+clip(s2)+")", "decode(encode(graph)) == graph")
 	}
+	return outGraph
 }
 
 func clip(s string) string {
@@ -843,4 +868,7 @@ func run(c *engine.Ctx) {
 			}
 		})
 	}
+
+	// 7. the decoders' counters (declared n, width k, current vertex v) driven to their numeric limits (limits.go)
+	limitUnits(c)
 }
